@@ -1,6 +1,7 @@
 import StorageModel.Driver.Common
 import StorageModel.C09.Universe
 import StorageModel.C09.ModelE
+import StorageModel.C09.NamingDriver
 /- model driver for C09: `run spec` reads case lines on stdin and prints one output line per case
    (spec = false: the engine model's output for the case's state; spec = true: the property's
    verdict on the *implementation's* observations, which the check appends after " @O ").
@@ -346,6 +347,11 @@ def specStep (line : String) : String :=
     | _ => "fail:observation-not-understood"
   | _, _ => "bad-case"
 
-def run (spec : Bool) : IO Unit := forEachLine (if spec then specStep else step)
+/-- cases over schemas with names, keys / paths and declaring stores start with `N:` (C09/NamingDriver.lean) -/
+def dispatch (spec : Bool) (line : String) : String :=
+  if line.startsWith "N:" then (if spec then ND.specStep line else ND.step line)
+  else (if spec then specStep line else step line)
+
+def run (spec : Bool) : IO Unit := forEachLine (dispatch spec)
 
 end StorageModel.Driver.C09
